@@ -78,7 +78,6 @@ ScaleOf(s, p, v) == IF v = <<0, 0>> \/ v = One(s) THEN v                    \* 0
                     ELSE IF HasSite(p, "abs", v[1], v[2]) THEN <<v[1], SiteR(p, "abs", v[1], v[2])>>
                     ELSE v                                                  \* t * duration
 
-CodeInit == pc = "grid" /\ acc = {} /\ targets = <<>>
 CodeGrid    == pc = "grid"  /\ acc' = GridRel(sc, plan)                 /\ pc' = "one"   /\ UNCHANGED <<sc, plan, targets>>
 CodeAddOne  == pc = "one"   /\ acc' = acc \cup {One(sc)}                /\ pc' = "obs"   /\ UNCHANGED <<sc, plan, targets>>
 CodeAddObs  == pc = "obs"   /\ acc' = acc \cup ObsRel(sc)               /\ pc' = "scale" /\ UNCHANGED <<sc, plan, targets>>
@@ -105,10 +104,13 @@ MergedMerge  == pc = "merge" /\ targets' = Append(MergeFrom(targets, 1, << <<0, 
 MergedNext == MergedGrid \/ MergedAddObs \/ MergedSort \/ MergedMerge
 
 -----------------------------------------------------------------------------------------------
-Init == /\ sc \in Scenarios
-        /\ plan \in {p \in Plans(sc) : WellFormed(p)}
-        /\ CodeInit
-Next == IF Variant = "code" THEN CodeNext ELSE MergedNext
+NoScenario == [D |-> 0, dt |-> 1, ev |-> {}]
+Init == sc = NoScenario /\ plan = {} /\ pc = "pick" /\ acc = {} /\ targets = <<>>
+Pick == /\ pc = "pick"                 \* the environment chooses the inputs and the roundings
+        /\ sc' \in Scenarios
+        /\ plan' \in {p \in Plans(sc') : WellFormed(p)}
+        /\ pc' = "grid" /\ UNCHANGED <<acc, targets>>
+Next == Pick \/ (IF Variant = "code" THEN CodeNext ELSE MergedNext)
 Spec == Init /\ [][Next]_vars
 
 Done == pc = "done"
